@@ -170,6 +170,7 @@ inductive FsOp where
   | close (p : Path)
   | remove (p : Path)
   | rename (src dst : Path)
+  | truncate (p : Path) (size : Nat)  -- (*os.File).Truncate(size)
   deriving DecidableEq, Repr, Inhabited
 
 structure FS where
@@ -200,6 +201,9 @@ def FS.apply (fs : FS) : FsOp → FS
   | .close _ => fs
   | .remove p => fs.set p none
   | .rename s d => (fs.set d (fs.get s)).set s none
+  | .truncate p n => match fs.get p with
+    | some c => fs.set p (some (c.take n))
+    | none => fs
 
 def FS.applyAll (fs : FS) (ops : List FsOp) : FS := ops.foldl FS.apply fs
 
@@ -259,15 +263,34 @@ structure Snap where
   block : AMap := []
   deriving DecidableEq, Repr, Inhabited
 
-/-- `NewSnapshotter` on a file with content `file` (`none`: it does not exist). -/
-def Snap.openOn (rj : Bool) (mc : Nat) (file : Option Bytes) : Snap × List FsOp :=
-  let f := file.getD []
-  let r := replay rj f
-  ({ rejoin := rj, minCompact := mc, alive := r.alive, lastClock := r.clock,
-     lastEventClock := r.eventClock, lastQueryClock := r.queryClock, offset := f.length },
-   [.openAppend .main])
+/-- Which of the start-up repairs the code has (all `true` = the code as it is now;
+`Shape.old` = before the fixes 1e1bbff / 01e715c, kept for the regression witnesses). -/
+structure Shape where
+  /-- NewSnapshotter: `path` missing and `path.compact` present → rename it into place -/
+  recoverRename : Bool := true
+  /-- replay: an unterminated last line is cut off the file (`Truncate(valid)`) -/
+  truncateTorn : Bool := true
+  deriving DecidableEq, Repr, Inhabited
 
-def Snap.init (rj : Bool) (mc : Nat) : Snap × List FsOp := Snap.openOn rj mc none
+def Shape.old : Shape := { recoverRename := false, truncateTorn := false }
+
+/-- `valid` in replay: the length of the longest prefix that ends with a newline -/
+def completeLen : Bytes → Nat
+  | [] => 0
+  | c :: cs => if completeLen cs > 0 then completeLen cs + 1 else if c = '\n' then 1 else 0
+
+/-- `NewSnapshotter` on the directory `fs`. -/
+def Snap.openOn (rj : Bool) (mc : Nat) (fs : FS) (sh : Shape := {}) : Snap × List FsOp :=
+  let doRename := sh.recoverRename && fs.main.isNone && fs.tmp.isSome
+  let f := ((if doRename then fs.tmp else fs.main).getD [])
+  let r := replay rj f
+  let valid := completeLen f
+  let trunc := sh.truncateTorn && decide (valid < f.length)
+  ({ rejoin := rj, minCompact := mc, alive := r.alive, lastClock := r.clock,
+     lastEventClock := r.eventClock, lastQueryClock := r.queryClock, offset := if trunc then valid else f.length },
+   (if doRename then [.rename .tmp .main] else []) ++ [.openAppend .main] ++ (if trunc then [.truncate .main valid] else []))
+
+def Snap.init (rj : Bool) (mc : Nat) : Snap × List FsOp := Snap.openOn rj mc {}
 
 def snapshotBytesPerNode : Nat := 128
 def snapshotCompactionThreshold : Nat := 2
@@ -389,14 +412,15 @@ def shutdown (ord : Order) (s : Snap) (clk : Nat) : Snap × List FsOp :=
   ({ r.1 with buf := [] }, r.2 ++ flushOps .main r.1.buf ++ [.sync .main, .close .main])
 
 /-- A whole life: open on an existing directory state, events, shutdown. -/
-def life (ord : Order) (rj : Bool) (mc : Nat) (fs : FS) (evs : List Ev) (clk : Nat) : Snap × List FsOp :=
-  let r0 := Snap.openOn rj mc fs.main
+def life (ord : Order) (rj : Bool) (mc : Nat) (fs : FS) (evs : List Ev) (clk : Nat) (sh : Shape := {}) : Snap × List FsOp :=
+  let r0 := Snap.openOn rj mc fs sh
   let r1 := run ord r0.1 evs
   let r2 := shutdown ord r1.1 clk
   (r2.1, r0.2 ++ r1.2 ++ r2.2)
 
 /-- The state a restart recovers from a directory. -/
-def recover (rj : Bool) (fs : FS) : RecState := replay rj (fs.main.getD [])
+def recover (rj : Bool) (fs : FS) (sh : Shape := {}) : RecState :=
+  replay rj ((if sh.recoverRename && fs.main.isNone then fs.tmp else fs.main).getD [])
 
 /-! ## Crashes (process-crash semantics: what was handed to the OS survives) -/
 
